@@ -852,6 +852,40 @@ func prop(c Case) error {
 	if err := lossless("route "+route, t, g, route != "reserve" || true); err != nil {
 		return err
 	}
+	// a polygon taken from a MultiPolygon and given another ring is well formed, and so
+	// is the MultiPolygon afterwards, still holding what it held: the last polygon that
+	// has coordinates is taken (no coordinate follows it, so the ring has room)
+	if mp, ok := t.(*geom.MultiPolygon); ok && g.Layout != 0 {
+		k := -1
+		for i := range g.C3 {
+			for _, r := range g.C3[i] {
+				if len(r) > 0 {
+					k = i
+				}
+			}
+		}
+		if k >= 0 {
+			child := mp.Polygon(k)
+			s := mp.Stride()
+			ringFlat := make([]float64, 3*s)
+			for i := range ringFlat {
+				ringFlat[i] = float64(-1000 - i)
+			}
+			rings := child.NumLinearRings()
+			if err := child.Push(geom.NewLinearRingFlat(mp.Layout(), ringFlat)); err != nil {
+				return fmt.Errorf("route %s: Push of a ring onto Polygon(%d) of the result: %v", route, k, err)
+			}
+			if err := model.WellFormed(child); err != nil {
+				return fmt.Errorf("route %s: Polygon(%d) of the result after a ring was pushed onto it: %v", route, k, err)
+			}
+			if child.NumLinearRings() != rings+1 {
+				return fmt.Errorf("route %s: Polygon(%d) of the result has %d rings after a Push, had %d", route, k, child.NumLinearRings(), rings)
+			}
+			if err := lossless("route "+route+", after a ring was pushed onto the polygon its Polygon("+fmt.Sprint(k)+") returned,", t, g, true); err != nil {
+				return err
+			}
+		}
+	}
 	// what a constructor returns does not depend on what became of the values it
 	// returned before: the first value grows by an EMPTY part and by a part with
 	// coordinates, and the same route then builds the geometry a second time
